@@ -247,4 +247,77 @@ theorem keep_classic_superset (cfg : Cfg) (es : List Entry) (hk : cfg.keep = tru
 example : ((transform (exCfg true) exStream).filter (fun o => !o.isNhcb)) = exStream.map Entry.toOut := by
   decide +kernel
 
+/-! ### The situations `WF` excludes: known findings C36-F1 … C36-F4, each with a concrete witness
+
+  (`decide +kernel`: the kernel evaluates the model on the concrete stream; hex strings: `68` = `h`,
+  `67` = `g`, `685f6275636b6574` = `h_bucket`, `685f636f756e74` = `h_count`, `31` = `1`, `2b496e66` = `+Inf`.) -/
+
+def tH : Entry := .typ "68" "686973746f6772616d"
+def tG : Entry := .typ "67" "686973746f6772616d"
+def nm (s : String) : Lbl := ("5f5f6e616d655f5f", s)
+def leL (s : String) : Lbl := ("6c65", s)
+def cfgW (keep : Bool) : Cfg := { keep := keep, parseST := false, partialEx := false, fixed := true }
+
+/-- `# TYPE h histogram`, `h_bucket{le="+Inf"} 5 # {…} …` -/
+def f1Stream : List Entry :=
+  [ tH, .series "b" [nm "685f6275636b6574", leL "2b496e66"] 0x4014000000000000 none 0 ["x/0/-"] ]
+
+/-- C36-F1: with keep-classic the kept classic series comes back without its exemplar; the stream is
+    well-formed without keep-classic and excluded by `WF` with it (clause `wfMember`, first conjunct). -/
+theorem keep_classic_exemplars_witness :
+    ¬ WF (cfgW true) f1Stream ∧ WF (cfgW false) f1Stream ∧
+    (transform (cfgW true) f1Stream).filter (fun o => !o.isNhcb) =
+      [ .typ "68" "686973746f6772616d",
+        .series "b" [nm "685f6275636b6574", leL "2b496e66"] 0x4014000000000000 none 0 [] ] ∧
+    (transform (cfgW true) f1Stream).filter (fun o => !o.isNhcb) ≠ f1Stream.map Entry.toOut := by
+  decide +kernel
+
+/-- `# TYPE h histogram`, `h_bucket{le="+Inf"} 5`, then an exponential histogram `h{a="b"}` -/
+def f2Stream : List Entry :=
+  [ tH, .series "b" [nm "685f6275636b6574", leL "2b496e66"] 0x4014000000000000 none 0 [],
+    .hist "e" [nm "68", ("61", "62")] none 0 [] "H" ]
+
+/-- C36-F2: the stream without the exponential entry has one group and one converted histogram; with the
+    exponential entry arriving while the group is open nothing is converted (the group is dropped), and
+    `WF` excludes the stream (clause `.hist` of `wfStep`). -/
+theorem exponential_drops_classic_witness :
+    ¬ WF (cfgW false) f2Stream ∧ (groups (cfgW false) (f2Stream.take 2)).length = 1 ∧
+    ((transform (cfgW false) (f2Stream.take 2)).filter Out.isNhcb).length = 1 ∧
+    (transform (cfgW false) f2Stream).filter Out.isNhcb = [] := by
+  decide +kernel
+
+/-- `h_bucket{le="1"} 5`, `h_count 3` (fails Validate: negative `+Inf` bucket), then the valid histogram
+    `g_bucket{le="1"} 1`, `g_bucket{le="+Inf"} 1`, `g_count 1` -/
+def f3Stream : List Entry :=
+  [ tH, .series "b" [nm "685f6275636b6574", leL "31"] 0x4014000000000000 none 0 [],
+    .series "c" [nm "685f636f756e74"] 0x4008000000000000 none 0 [],
+    tG, .series "b1" [nm "675f6275636b6574", leL "31"] 0x3ff0000000000000 none 0 [],
+    .series "b2" [nm "675f6275636b6574", leL "2b496e66"] 0x3ff0000000000000 none 0 [],
+    .series "c" [nm "675f636f756e74"] 0x3ff0000000000000 none 0 [] ]
+
+/-- C36-F3: the histogram failing Validate leaves `stateCollecting` and its buckets behind: the buckets of
+    the following valid histogram `g` are merged into it and lost, `g` is converted from its `_count` series
+    alone (no custom value) instead of with its bound 1.0.  `WF` excludes the stream (`g.conv.isSome`),
+    while the valid histogram alone is well-formed. -/
+theorem failed_validate_leaves_state_witness :
+    ¬ WF (cfgW false) f3Stream ∧ WF (cfgW false) (f3Stream.drop 3) ∧
+    (transform (cfgW false) (f3Stream.drop 3)).filter Out.isNhcb =
+      [.nhcb "67" [nm "67"] none 0 [] (.int 1 0 [0x3ff0000000000000] [1, 0])] ∧
+    (transform (cfgW false) f3Stream).filter Out.isNhcb =
+      [.nhcb "67" [nm "67"] none 0 [] (.int 1 0 [] [1])] := by
+  decide +kernel
+
+/-- C36-F4: after a histogram with exemplar `old` was converted, `processNHCB` resets `len`/`count` of the
+    exemplar buffer but keeps the slot; when the wrapped parser's `Exemplar()` leaves `HasTs`/`Ts` untouched
+    (`partialWrite`), an exemplar `l`/`v`/no-timestamp stored next inherits the timestamp `ot` of
+    `old`.  `WF` excludes it (`wfMember`, second conjunct: every collated exemplar has a timestamp).
+    (`"a/b/c".splitOn "/" = ["a","b","c"]` by `#eval`; `splitOn` does not reduce in the kernel.) -/
+theorem stale_exemplar_timestamp_witness (old new l v a b ot : String)
+    (hn : new.splitOn "/" = [l, v, "-"]) (ho : old.splitOn "/" = [a, b, ot]) :
+    (ExBuf.store true { buf := [old], len := 0, count := 0 } [new]).buf.take
+        (ExBuf.store true { buf := [old], len := 0, count := 0 } [new]).count = [l ++ "/" ++ v ++ "/" ++ ot] ∧
+    exHasTs new = false := by
+  refine ⟨?_, by simp [exHasTs, hn]⟩
+  simp [ExBuf.store, ExBuf.nextPtr, mergeEx, hn, ho]
+
 end Prom.C36
